@@ -374,7 +374,7 @@ thread_local! { static FIRST: std::cell::RefCell<Option<(SendOutcome, usize, Vec
 
 pub fn run(sc: &Value) -> Vec<String> {
     let req = &sc["req"];
-    if cfg!(feature = "min") && matches!(gs(&req["body"], "kind"), "json" | "json_streaming" | "form" | "multipart") {
+    if cfg!(feature = "min") && (matches!(gs(&req["body"], "kind"), "json" | "json_streaming" | "form" | "multipart") || !ga(req, "query").is_empty()) {
         return vec![]; // body kinds of features this build does not have
     }
     let settings = &sc["settings"];
@@ -389,6 +389,7 @@ pub fn run(sc: &Value) -> Vec<String> {
     // reactive peers: answer according to the node the request names
     let nodes_r = nodes.clone();
     let cp = connect_policy.clone();
+    let slow_redirect_body = gb(sc, "slowRedirectBody");
     // per connection: 0 = nothing answered, 1 = CONNECT agreed (waiting for the hello), 2 = answered
     let phases: Arc<Mutex<Vec<(u8, usize)>>> = Arc::new(Mutex::new(Vec::new()));
     let phases_r = phases.clone();
@@ -477,10 +478,17 @@ pub fn run(sc: &Value) -> Vec<String> {
         if let Some(l) = loc {
             resp.extend_from_slice(format!("Location: {}\r\n", l).as_bytes());
         }
+        if slow_redirect_body && matches!(status, 301 | 302 | 303 | 307 | 308) {
+            // a redirect that announces more body than it sends (and keeps the connection open): following it does
+            // not wait for the rest
+            resp.extend_from_slice(b"Content-Length: 50\r\n\r\nok");
+            return Some(Reply { bytes: resp, close: false });
+        }
         resp.extend_from_slice(b"Content-Length: 2\r\n\r\nok");
         Some(Reply { bytes: resp, close: true })
     }));
     world.wfail_first = gu(sc, "wfail");
+    world.refuse_first = gb(sc, "refuse_first");
     let world: Shared = Arc::new(Mutex::new(world));
     install_dialer(&world);
     let _ = life_take();
@@ -536,6 +544,12 @@ pub fn run(sc: &Value) -> Vec<String> {
         }
         for p in ga(req, "params") {
             rb = rb.param(p[0].as_str().unwrap(), p[1].as_str().unwrap());
+        }
+        #[cfg(not(feature = "min"))]
+        if !ga(req, "query").is_empty() {
+            // RequestBuilder::query(&T): the serialised pairs are added to what the URL already carries
+            let pairs: Vec<(String, String)> = ga(req, "query").iter().map(|p| (p[0].as_str().unwrap().to_string(), p[1].as_str().unwrap().to_string())).collect();
+            rb = rb.query(&pairs).map_err(|e| err_kind(&e))?;
         }
         for h in ga(req, "headers") {
             let v = h[1].as_str().unwrap();
@@ -669,6 +683,8 @@ pub fn run(sc: &Value) -> Vec<String> {
         "bodyFails": gu(&body_spec, "fail_at") > 0,
         // the first connection broke for writing while the request went out (scenario field wfail)
         "wfail": w.conns.first().map(|c| c.wfail_hit).unwrap_or(false),
+        // nothing listened where the first connection was dialled
+        "refused": gb(sc, "refuse_first"),
         "failSent": ga(&body_spec, "writes").iter().take(gu(&body_spec, "fail_at").saturating_sub(1)).map(|x| x.as_u64().unwrap() as usize).sum::<usize>().min(gu(&body_spec, "len")),
         "session": req.get("session_headers").is_some()});
     let reset_ev = json!({"ev":"reset","id":gs(sc,"id"),"req":req_ev,"settings":settings,"nodes":nodes,"bodyLen":expected_body.len(),"connect":connect_policy,"defaults":defaults,"second":false});
@@ -683,8 +699,8 @@ pub fn run(sc: &Value) -> Vec<String> {
             close_first(&mut out, &first, &reset_ev);
             first_closed = true;
         }
-        if c.dial.is_none() {
-            continue;
+        if c.dial.is_none() || c.script.refuse.is_some() {
+            continue; // (a refused dial carries no request)
         }
         let _ = Hop { ci };
         let dial = c.dial.clone().unwrap();
@@ -726,7 +742,7 @@ pub fn run(sc: &Value) -> Vec<String> {
             }
         }
         // query pairs decode back?
-        let qpairs: Vec<(String, String)> = ga(req, "params").iter().map(|p| (p[0].as_str().unwrap().to_string(), p[1].as_str().unwrap().to_string())).collect();
+        let qpairs: Vec<(String, String)> = ga(req, "params").iter().chain(ga(req, "query").iter()).map(|p| (p[0].as_str().unwrap().to_string(), p[1].as_str().unwrap().to_string())).collect();
         let qstr = gs(&turl, "q");
         let observed_pairs: Vec<(String, String)> = if qstr == "-" { vec![] } else { url::form_urlencoded::parse(qstr.as_bytes()).map(|(a, b)| (a.to_string(), b.to_string())).collect() };
         let qmatch = observed_pairs.iter().rev().zip(qpairs.iter().rev()).take_while(|(a, b)| a == b).count();
@@ -777,7 +793,7 @@ pub fn run(sc: &Value) -> Vec<String> {
                 }).collect::<Vec<_>>(),"qmatch":qmatch,"qpairs":qpairs.len(),"version":pr.version,
                 "auth":hv("authorization"),"proxyAuth":hv("proxy-authorization").len(),"ctype":hv("content-type"),"nchunks":pr.chunks.len(),
                 "leaks":marker_count(reqbytes, &secrets)},
-            "written":c.written.len()}).to_string());
+            "written":c.written.len(),"stalls":c.stalled}).to_string());
     }
     if split != usize::MAX && !first_closed {
         // (the second send() dialled nothing)
@@ -886,10 +902,12 @@ pub fn generate(seed: u64, tier: &str) -> Vec<Value> {
             "path": if enc.is_empty() { json!([""]) } else { json!(enc) }, "pathText": if raw.is_empty() { json!([""]) } else { json!(raw) }, "q":"-"});
         let nparams = r.below(4);
         let params: Vec<Value> = (0..nparams).map(|_| json!([*r.pick(&str_pool), *r.pick(&str_pool)])).collect();
-        if !params.is_empty() {
-            // expected query string: application/x-www-form-urlencoded of the pairs
+        let nquery = if i % 5 == 2 { r.range(1, 2) } else { 0 };
+        let query: Vec<Value> = (0..nquery).map(|_| json!([*r.pick(&str_pool), *r.pick(&str_pool)])).collect();
+        if !params.is_empty() || !query.is_empty() {
+            // expected query string: application/x-www-form-urlencoded of the pairs (param()s first, then query())
             let q = url::form_urlencoded::Serializer::new(String::new())
-                .extend_pairs(params.iter().map(|p| (p[0].as_str().unwrap(), p[1].as_str().unwrap())))
+                .extend_pairs(params.iter().chain(query.iter()).map(|p| (p[0].as_str().unwrap(), p[1].as_str().unwrap())))
                 .finish();
             url["q"] = json!(q);
             url["qText"] = json!("-");
@@ -914,7 +932,7 @@ pub fn generate(seed: u64, tier: &str) -> Vec<Value> {
         let nw = r.below(5);
         let writes: Vec<usize> = (0..nw).map(|_| *r.pick(&[0usize, 1, 100, 8192, 9000, 16384, 16385, 40000])).collect();
         let mut req = json!({"method":*r.pick(&methods),"url":url,"body":{"kind":kind,"len":len,"writes":writes,"chunked":r.chance(1,2),"flush_every":r.below(3)},
-            "headers":headers,"params":params});
+            "headers":headers,"params":params,"query":query});
         match r.below(6) {
             0 => req["auth"] = json!({"basic":[*r.pick(&["user", "us:er", "ü", ""]), *r.pick(&["pass", "p:w", "päss", ""])]}),
             1 => req["auth"] = json!({"basic":["onlyuser"]}),
